@@ -233,7 +233,7 @@ Section P2.
        res_rel (iso sigma tau) (exec_network_simplex p g) (exec_network_simplex p g')) ->
     forall g g', iso sigma tau g g' -> res_rel (iso sigma tau) (phase2 alg p g) (phase2 alg p g').
   Proof.
-    intros alg p Hns g g' H. unfold phase2.
+    intros alg p Hns g g' H. unfold phase2, assign_layers.
     apply res_rel_bind with (R := iso sigma tau).
     - rewrite (iso_N_length H). destruct (Nat.eqb (length (g_N g)) 1).
       + constructor. exact H.
